@@ -301,7 +301,7 @@ pub(crate) mod verif_d1 {
 //@harness d2_read_all_5 kind=proof fn=DecodeBuffer::read_all props=C06,C08 tier=quick bound="ring capacity 5" witness=d2_read_all_5 timeout=900
 //@harness d2_drain_9 kind=proof fn=DecodeBuffer::drain props=C06,C08 tier=thorough bound="ring capacity 9" witness=d2_drain_9 timeout=1800
 //@harness d2_read_9 kind=proof fn=DecodeBuffer::read props=C06,C08 tier=thorough bound="ring capacity 9" witness=d2_read_9 timeout=1800
-//@harness d2_writer_drains_5 kind=proof fn=DecodeBuffer::drain_to_writer,DecodeBuffer::drain_to_window_size_writer,write_all_bytes props=C06,C08 tier=quick bound="ring capacity 5, writer that takes `chunk` bytes per call and fails after a symbolic number of calls" witness=d2_writer_drains_5 timeout=900
+//@harness d2_writer_drains_5 kind=proof fn=DecodeBuffer::drain_to_writer,DecodeBuffer::drain_to_window_size_writer,write_all_bytes props=C06,C08 tier=thorough bound="ring capacity 5, writer that takes `chunk` bytes per call and fails after a symbolic number of calls" witness=d2_writer_drains_5 timeout=900
 //@harness d2_reset kind=proof fn=DecodeBuffer::reset,DecodeBuffer::new props=C07,C08,C09 tier=quick bound="ring capacity 5, window <= 20" witness=d2_reset timeout=900
 //@harness d1_cover kind=cover props=C06,C08 tier=quick
 //@harness d1_canary kind=canary props=C06,C08 tier=quick
